@@ -11,6 +11,7 @@ mod fmt_family;
 mod io_family;
 mod queue_family;
 mod rng;
+mod sink_family;
 
 fn main() {
     let args: Vec<String> = std::env::args().collect();
@@ -27,6 +28,7 @@ fn main() {
                 "fmt" => fmt_family::run_case(&args[3]),
                 "client" => client_family::run_case(&args[3]),
                 "queue" => queue_family::run_case(&args[3]),
+                "sink" => sink_family::run_case(&args[3]),
                 _ => {
                     eprintln!("unknown family {}", family);
                     std::process::exit(2);
@@ -58,6 +60,7 @@ fn main() {
                 "fmt" => fmt_family::search(prop, seed, budget),
                 "client" => client_family::search(prop, seed, budget),
                 "queue" => queue_family::search(prop, seed, budget),
+                "sink" => sink_family::search(prop, seed, budget),
                 _ => {
                     eprintln!("unknown family {}", family);
                     std::process::exit(2);
